@@ -389,6 +389,7 @@ def bfs(ctx, trees, recursive, nmax, pool, max_polls):
     transitions = 0
     depth = 0
     sample = None
+    truncated = False
     while frontier and depth < max_polls:
         depth += 1
         _G["frontier"], _G["seen"] = frontier, seen
@@ -404,7 +405,13 @@ def bfs(ctx, trees, recursive, nmax, pool, max_polls):
                         nxt.append(h2)
         states = len(seen)
         frontier = nxt
-    closed = not frontier
+        if total.nbad:
+            break       # disagreement at this depth: report it, do not search below broken behaviour
+        if len(frontier) > 3 * len(trees):
+            # only misbehaving code produces that many new states (a correct emitter's state is its last tree)
+            frontier = frontier[:3 * len(trees)]
+            truncated = True
+    closed = not frontier and not truncated
     for h in (trees[len(trees) // 2],):
         succ, _ = successors(h, nmax, pool)
         t2 = max(succ, key=lambda t: (len(succ[t]), t))
@@ -417,7 +424,7 @@ def bfs(ctx, trees, recursive, nmax, pool, max_polls):
     _violations(ctx, total, "H", name)
     ctx.add_enum(name, total.evals, total.nontrivial, samples=[sample], states=states, transitions=transitions,
                  exhaustive=closed,
-                 extra=dict(initial_states=len(trees), states=states, depth_reached=depth, max_polls=max_polls, closed=closed,
+                 extra=dict(initial_states=len(trees), states=states, depth_reached=depth, max_polls=max_polls, closed=closed, frontier_truncated=truncated,
                             operation_sequences=total.opseqs, distinct_signatures=len(total.sigs),
                             failing_evaluations=total.nbad))
 
